@@ -77,9 +77,10 @@ def gen_params(rng, variant):
     if variant == "laplace":
         return [rq(rng, -3, 3), rpos(rng, 3)]
     if variant == "truncnormal":
+        # sigma2 a rational square: get_moment refuses (EvaluationException) when sqrt(sigma2) is irrational
         mu = rq(rng, -2, 2, (1, 2))
         a = mu - rpos(rng, 2)
-        return [mu, rpos(rng, 3), a, a + rpos(rng, 3) + 1]
+        return [mu, rpos(rng, 2) ** 2, a, a + rpos(rng, 3) + 1]
     raise KeyError(variant)
 
 
@@ -439,6 +440,7 @@ def run(ctx):
     # ---- 5. generated definitions vs real values, inside the kernel ---------------------
     k_ok = 0
     k_total = 0
+    sampled = set()
     if proof_ok:
         files = []
         for variant, cases in coq_cases.items():
@@ -464,9 +466,11 @@ def run(ctx):
                     if b:
                         k_ok += 1
                         cov["discharged"] += 1
-                        if c[1][0] == "moment" and c[1][2] >= 4:
+                        if c[1][0] == "moment" and c[1][2] == 5 and variant not in sampled:
+                            sampled.add(variant)
                             ctx.sample({"family": c[1][1]["family"], "params": c[1][1]["params"], "k": c[1][2],
-                                        "get_moment": c[1][3], "generated_definition": "equal (vm_compute)"})
+                                        "get_moment": c[1][3], "generated_definition": "equal (vm_compute)",
+                                        "oracle": "equal"}, limit=12)
                     else:
                         k_mismatch.append({"variant": variant, "what": c[1][0], "input": c[1][1], "arg": c[1][2],
                                            "polar": c[1][3], "coq_term": c[0]})
@@ -501,18 +505,23 @@ def run(ctx):
     for variant, fam, ps in grid:
         if variant == "categorical" or per_variant.get(variant, 0) >= ctx.pick(1, 4):
             continue    # Categorical declares no cf/mgf
+        if variant in ("beta2", "beta3") and (ctx.quick or per_variant.get(variant, 0) >= 1):
+            continue    # sympy's E[exp(t X)] does not finish for non-integer Beta parameters: integer points below
         per_variant[variant] = per_variant.get(variant, 0) + 1
         val_tasks.append({"kind": "dist_transform", "family": fam, "params": [fstr(p) for p in ps],
-                          "kmax": 6, "budget": ctx.pick(25, 60), "tol": 1e-9 if variant == "truncnormal" else None,
+                          "kmax": ctx.pick(3, 6) if variant == "truncnormal" else 6, "budget": ctx.pick(20, 60),
+                          "tol": 1e-9 if variant == "truncnormal" else None,
                           "timeout": ctx.pick(70, 150)})
         val_meta.append((variant, fam, ps))
     # integer-parameter Beta: sympy finishes there
-    for fam, ps, variant in [("Beta", [F(2), F(3)], "beta2"), ("Beta", [F(2), F(3), F(5, 2)], "beta3")]:
+    for fam, ps, variant in [("Beta", [F(2), F(3)], "beta2"), ("Beta", [F(2), F(3), F(5, 2)], "beta3"),
+                             ("Beta", [F(ctx.rng.randint(1, 4)), F(ctx.rng.randint(1, 4)), rpos(ctx.rng)], "beta3")]:
         val_tasks.append({"kind": "dist_transform", "family": fam, "params": [fstr(p) for p in ps], "kmax": 6,
                           "budget": 40, "tol": None, "timeout": 100})
         val_meta.append((variant, fam, ps))
     vres = lib.run_tasks(val_tasks, timeout=150)
     vstat = {"ok": 0, "ok-numeric": 0, "inconclusive": 0, "mismatch": 0, "not-implemented": 0}
+    vdetail = {}
     for (variant, fam, ps), r in zip(val_meta, vres):
         label = {"family": fam, "params": [fstr(p) for p in ps]}
         if "error" in r:
@@ -525,6 +534,7 @@ def run(ctx):
                 continue
             if "status" in w:
                 vstat["inconclusive"] += 1
+                vdetail[f"{fam}({', '.join(label['params'])}).{which}"] = w["status"]
                 continue
             for k, st in w.items():
                 ctx.count({"val": which, "f": variant, "p": label["params"], "k": k}, nontrivial=int(k) >= 1)
@@ -543,6 +553,7 @@ def run(ctx):
                               f"{fam}({', '.join(label['params'])}).{which}: derivative of order {k} at 0 gives "
                               f"{st['transform_value']}, get_moment({k}) = {st['moment']}")
     cov["transform_validation"] = vstat
+    cov["transform_validation_inconclusive"] = vdetail
 
     tn_tasks = [{"kind": "dist_truncnormal", "params": [fstr(p) for p in ps], "ks": list(range(0, 7)), "timeout": 120}
                 for variant, fam, ps in grid if variant == "truncnormal"][:ctx.pick(3, 12)]
@@ -550,7 +561,8 @@ def run(ctx):
     tn_max = 0.0
     for t, r in zip(tn_tasks, tn):
         if "error" in r:
-            cov["truncnormal_inconclusive"] = cov.get("truncnormal_inconclusive", 0) + 1
+            key = "truncnormal_refused" if r.get("etype") == "EvaluationException" else "truncnormal_inconclusive"
+            cov[key] = cov.get(key, 0) + 1
             continue
         for k, v in r.items():
             ctx.count({"tn": t["params"], "k": k}, nontrivial=True)
